@@ -8,7 +8,7 @@ use vcommon::{json, Out, Value};
 use crate::conn::Run;
 
 fn setup(cfg: &Value) -> Run {
-    let mut run = Run::new(cfg);
+    let mut run: Run = Run::new(cfg);
     // connections 1,2 -> peer 1 ; 3 -> peer 2
     for (i, p) in [(0, 1), (1, 1), (2, 2)] {
         run.exec(&json!({"c": "dial", "peer": p, "cond": "Always", "addrs": [20 + i]}));
